@@ -31,6 +31,9 @@ Base == [nodes |-> <<>>, top |-> 1, conns |-> << <<>> >>, ctx0 |-> <<FALSE>>, ru
 \* ---- one node run on its own -------------------------------------------
 SingleCfgs    == {[Base EXCEPT !.nodes = <<k>>] : k \in LeafKinds \cup FuncKinds}
 SingleEresCfgs== {[Base EXCEPT !.nodes = <<k>>, !.outs = {"ok", "err", "eres"}, !.acts = {1}] : k \in {x \in FuncKinds : x.sty[2] = "r" /\ x.N <= 2}}
+\* the same node object run twice: nothing of the first run may leak into the second
+SingleRerunCfgs == {[Base EXCEPT !.nodes = <<k>>, !.outs = {"ok", "err", "eres"}, !.acts = {1}, !.runs = 2, !.conns = << <<>>, <<>> >>, !.ctx0 = <<FALSE, FALSE>>] :
+                       k \in {x \in FuncKinds : x.N = 1 /\ x.sty[1] = "r"} \cup {Leaf(TRUE, TRUE, 1)}}
 SingleNilCfgs == {[Base EXCEPT !.nodes = <<k>>, !.outs = {"ok", "err", "nil"}, !.acts = {1}] :
                      k \in {x \in LeafKinds \cup FuncKinds : x.N <= 2}}
 SingleCancelCfgs == {[Base EXCEPT !.nodes = <<k>>, !.cancel = TRUE, !.acts = {1}, !.ctx0 = <<c0>>] :
@@ -105,6 +108,7 @@ NilStartCfgs == {[Base EXCEPT !.nodes = <<Leaf(TRUE, FALSE, 1), FlowNode(0), Flo
 Cfgs == CASE Family = "single"       -> SingleCfgs
           [] Family = "singleeres"   -> SingleEresCfgs
           [] Family = "singlenil"    -> SingleNilCfgs
+          [] Family = "singlererun"  -> SingleRerunCfgs
           [] Family = "singlecancel" -> SingleCancelCfgs
           [] Family = "flow2"        -> Flow2Cfgs
           [] Family = "flow2empty"   -> Flow2EmptyCfgs
